@@ -8,6 +8,10 @@
 (*                    path with a NUL escape (it swallows OSError only)                     *)
 (*   ZipCountsAsReal  the isinstance(self.vfs, VFS_Real) guard of the real-file-only        *)
 (*                    handlers accepts a VFSZip                                             *)
+(*   NestedZipProbesCwd  ZIPHandler, re-run on the index of an archive, tests a member named  *)
+(*                    *.zip with zipfile.is_zipfile(<archive-internal RELATIVE path>), i.e.  *)
+(*                    it opens <working directory>/<member path>                            *)
+NestedZipProbesCwd == TRUE
 NulRaises == FALSE
 ZipCountsAsReal == FALSE
 DefaultList == <<"HTMLURLHandler", "BuckGophermapHandler", "MaildirFolderHandler", "MaildirMessageHandler",
